@@ -551,7 +551,8 @@ def compileStmt : Nat → Stmt → C Unit
     popScopeC
   | .exprS sp e => do
     compileExpr fuel e
-    if !e.ty.isNull then emit .drop sp
+    -- a `spawn` always leaves a value on the stack (`null` until thread handles exist)
+    if !e.ty.isNull || e.isSpawn then emit .drop sp
 def compileFn : Nat → FnDef → C Unit
   | 0, _ => unsup "compiler model fuel"
   | fuel + 1, fd => do
